@@ -166,12 +166,13 @@ def run(ctx):
             else:
                 nontrivial.add((pw, srpB, flag, s1, s2, g, P, random))
         elif kind == "t":
-            (_, _, mode, pw, apkind, srpB, srpid, s1, s2, g, P, b,
-             icls, iid, iA, iM1, rverdict, expect, tag) = c
+            (_, _, mode, pw, apkind, srpB, srpid, s1, s2, g, P, b, regpw,
+             icls, iid, iA, iM1, rverdict, expect, expect_verdict, tag) = c
             mcls, mid = m
-            inputs = ["t", pw, apkind, srpB, srpid, s1, s2, g, P, b]
+            inputs = ["t", pw, apkind, srpB, srpid, s1, s2, g, P, b, regpw]
             key = "exported:" + digest(inputs)
-            base = {"kind": "t", "inputs": inputs, "tags": tag, "password": show_pw(pw)}
+            base = {"kind": "t", "inputs": inputs, "tags": tag, "password": show_pw(pw), "registered_password": show_pw(regpw),
+                    "password_hex": pw, "registered_password_hex": regpw}
             if mcls != expect:
                 internal("model class %s but harness expects %s in case %s" % (mcls, expect, cid))
             bad = None
@@ -179,18 +180,20 @@ def run(ctx):
                 bad = "class %s, expected %s" % (icls, expect)
             elif icls == "srp" and iid != srpid:
                 bad = "srp_id not copied"
-            elif icls == "srp" and rverdict != "acc":
-                bad = "answer rejected by the reference server"
             elif icls == "srp" and len(iA) != 512:
                 bad = "A is not 256 bytes"
+            elif icls == "srp" and rverdict != expect_verdict:
+                bad = ("the %s password is %s by the reference server holding the verifier of %r"
+                       % ("right" if pw == regpw else "wrong", "accepted" if rverdict == "acc" else "rejected", show_pw(regpw)))
             if bad:
-                C.violation(ctx, key, "telegram.GetInputCheckPassword (%s): %s" % (tag, bad),
-                            dict(base, expected={"class": expect, "srpid": srpid, "verdict": "acc" if expect == "srp" else "na"},
+                C.violation(ctx, key, "telegram.GetInputCheckPassword(%r) (%s): %s" % (show_pw(pw), tag, bad),
+                            dict(base, expected={"class": expect, "srpid": srpid, "verdict": expect_verdict},
                                  got={"class": icls, "srpid": iid, "verdict": rverdict}, oracle="reference SRP server / model class"))
             else:
-                nontrivial.add((pw, apkind, srpB, s1, s2))
+                nontrivial.add((pw, regpw, apkind, srpB, s1, s2))
                 if icls == "srp":
                     exchanges += 1
+                    verdicts[rverdict] = verdicts.get(rverdict, 0) + 1
 
     cov = C.proof_coverage(
         pr, "make -f Makefile.coq theories/Props/C18.vo (coqc 8.16.1) in /verif/coq",
@@ -207,7 +210,10 @@ def run(ctx):
                  "which implementation, model and reference server agreed on class, A, M1 and verdict; groups: Telegram's 2048-bit prime, "
                  "random odd 2025..2047-bit moduli (leading zero bytes in A/B/S/k*v), 33..256-bit moduli with 256-byte encodings; "
                  "searched secrets with A, B, S, u starting with a zero byte; B in {0, p, p+1, p-1, 1, 247/248/255/257 bytes, empty}; "
-                 "passwords over ASCII/Latin-1/Cyrillic/CJK/Hebrew/non-BMP/invalid UTF-8; salts 0..64 bytes; wrong passwords",
+                 "passwords over ASCII/Latin-1/Cyrillic/CJK/Hebrew/non-BMP/invalid UTF-8; salts 0..64 bytes; wrong passwords; "
+                 "through the exported telegram.GetInputCheckPassword: passwords with leading/trailing/only white space "
+                 "(space, tab, CR, LF, CRLF, VT, FF, U+0085, U+00A0, U+2003, U+3000) as the right password (server holds the verifier of "
+                 "the exact string: accept), as a near-miss of the registered one (reject) and alone (an SRP answer, not the no-password answer)",
          "samples": samples, "input_distribution": stats, "disagreements_checked": disagreements,
          "exchanges_judged_by_reference_server": exchanges, "reference_server_verdicts": verdicts,
          "projection": "result class (answer / no-password / error / panic), A bytes, M1 bytes, srp_id, accept/reject by the reference server; "
@@ -236,6 +242,8 @@ def replay(ctx, path):
         got = {"class": f[0], "A": f[1], "M1": f[2]}
     else:
         got = {"class": f[0], "srpid": f[1], "verdict": f[4]}
+        if exp.get("class") != "srp":
+            exp = {"class": exp.get("class")}
     bad = [k for k in exp if k in got and exp[k] != got[k]]
     print("case %s tags=%s password=%r" % (kind, obj.get("tags"), obj.get("password")))
     for k in sorted(got):
